@@ -405,6 +405,9 @@ func (f faultyBN) GenesisDomain(ctx context.Context, dt eth2p0.DomainType) (eth2
 
 type sharedAgg struct {
 	down  atomic.Bool
+	vals  []*validator // the validators of the previous call of the sequence
+	N     int
+	typ   string
 	agg   *sigagg.Aggregator
 	T     int
 	calls *[]subCall
@@ -425,7 +428,13 @@ func runCall(t *testing.T, e *env, tr sink, sid int, c drv.Step, rep int, sh *sh
 		lists [][]core.ParSignedData
 	)
 	same, _ := c["samecontent"].(bool) // every validator of the call signs the same content (one signing root for all)
-	for range vals {
+	keep, _ := c["keepvals"].(bool)    // the validators (keys and their objects A / B) of the sequence's previous call again
+	for vi := range vals {
+		if keep && vi < len(sh.vals) && sh.N == N && sh.typ == typ+"/"+ver+"/"+bucket {
+			old := sh.vals[vi]
+			vs = append(vs, &validator{pub: old.pub, corePub: old.corePub, shares: old.shares, objs: old.objs})
+			continue
+		}
 		secret, err := tbls.GenerateSecretKey()
 		if err != nil {
 			fatalf("secret: %v", err)
@@ -449,6 +458,7 @@ func runCall(t *testing.T, e *env, tr sink, sid int, c drv.Step, rep int, sh *sh
 		}
 		vs = append(vs, v)
 	}
+	sh.vals, sh.N, sh.typ = vs, N, typ+"/"+ver+"/"+bucket
 	for vi, lv := range vals {
 		v := vs[vi]
 		shares := v.shares
